@@ -117,6 +117,22 @@ func (c *FSCtl) TraceOps() []FSOp {
 // becomes durable.
 func (c *FSCtl) CutAt(k int64) { c.cutAt = k }
 
+// ForceCut cuts the power now (between two operations) unless the armed cut
+// has already fired; it reports whether it did.
+func (c *FSCtl) ForceCut() bool {
+	c.mu.Lock()
+	defer c.mu.Unlock()
+	if c.cut {
+		return false
+	}
+	c.cut = true
+	c.cutKind = 0
+	c.cutInflight = -1
+	c.mem.SetIgnoreSyncs(true)
+	c.snapshotTornLocked()
+	return true
+}
+
 // Cut reports whether the power cut fired, which operation kind it hit and the
 // harness call that was in flight (-1 none).
 func (c *FSCtl) Cut() (bool, FSOp, int64) {
